@@ -95,6 +95,23 @@ type Order struct {
 	Deployment []int   `json:"deployment,omitempty"` // deployment map
 	DeployAt   [][]int `json:"deploy_at,omitempty"`  // deployment.<svc> maps
 	SvcFields  []int   `json:"svc_fields,omitempty"` // image, command, args, env, expose inside each service
+	// StoAttrs / PlaceAttrs permute the keys of every profiles.compute.<p>.resources.storage.attributes /
+	// profiles.placement.<p>.attributes mapping that has exactly len(perm) keys; RevAttrs writes all
+	// attribute mappings in reverse declaration order.
+	StoAttrs   []int `json:"storage_attributes,omitempty"`
+	PlaceAttrs []int `json:"placement_attributes,omitempty"`
+	RevAttrs   bool  `json:"reverse_attributes,omitempty"`
+}
+
+func attrOrder(p []int, rev bool, n int) []int {
+	if rev {
+		out := make([]int, n)
+		for i := range out {
+			out[i] = n - 1 - i
+		}
+		return out
+	}
+	return perm(p, n)
 }
 
 func perm(p []int, n int) []int {
@@ -212,7 +229,8 @@ func Render(d Doc, o Order) string {
 						w(5, "size: "+q(c.Sto))
 						if len(c.StoAttrs) > 0 {
 							w(5, "attributes:")
-							for _, a := range c.StoAttrs {
+							for _, i := range attrOrder(o.StoAttrs, o.RevAttrs, len(c.StoAttrs)) {
+								a := c.StoAttrs[i]
 								w(6, a.K+": "+q(a.V))
 							}
 						}
@@ -225,7 +243,8 @@ func Render(d Doc, o Order) string {
 						w(2, p.Name+":")
 						if len(p.Attrs) > 0 {
 							w(3, "attributes:")
-							for _, a := range p.Attrs {
+							for _, i := range attrOrder(o.PlaceAttrs, o.RevAttrs, len(p.Attrs)) {
+								a := p.Attrs[i]
 								w(4, a.K+": "+q(a.V))
 							}
 						}
